@@ -1007,7 +1007,10 @@ func (p *Path) rangeIter(x Value, t types.Type) iter {
 		es := x.live()
 		if x != nil && x.Observe && len(es) > 1 {
 			es = p.permute(es)
+		} else if len(es) > 1 && !p.mapOrderRev {
+			p.mapRanges++ // the order of this iteration is a free choice of the runtime: second pass in reverse
 		} else if p.mapOrderRev {
+			p.mapRanges++
 			r := make([]*mapEntry, len(es))
 			for i, e := range es {
 				r[len(es)-1-i] = e
